@@ -193,6 +193,21 @@ def dyadic_prince_ruleset(rng, path):
     return {'terminals': terminals, 'base': base, 'prince': prince, 'kind': 'dyadic prince'}
 
 
+def near_tie_ruleset(rng, path):
+    """values whose probabilities differ, but only by 1e-10 .. 1e-13 (absolutely or relatively): they are DIFFERENT groups;
+    a loader that compares with a tolerance would merge them and give the later ones the probability of the first"""
+    e = rng.choice([1e-10, 1e-11, 3e-12, 1e-13])
+    terminals = {
+        'A3': [('cat', 0.5), ('dog', 0.5 - e), ('fox', 0.25), ('owl', 0.25 * (1 - e))],
+        'C3': [('LLL', 0.75), ('ULL', 0.125), ('UUU', 0.125 - e)],
+        'D2': [('11', 0.25), ('21', 0.25), ('31', 0.25 - e), ('77', 7.5e-10), ('78', 5e-10), ('79', 2.5e-10)],
+        'O1': [('!', 0.6), (' ', 0.4)],
+    }
+    base = [('A3D2', 0.5), ('D2O1', 0.3), ('D2O1A3', 0.2 - e)]
+    rulesets.write_ruleset(path, terminals, base, prince=[('A3', 0.5), ('D2', 0.3), ('O1', 0.2)])
+    return {'terminals': terminals, 'base': base, 'kind': 'near ties', 'eps': e}
+
+
 def long_alpha_ruleset(rng, path):
     """alpha words of ten and more letters next to one-letter words: A10 is mangled by the masks of C10, not by those of C1"""
     w10 = rng.sample(['basketball', 'strawberry', 'chocolates', 'university', 'volleyball'], 3)
